@@ -3,23 +3,25 @@
 (* (GetSequenceUpdates / sequence put through ProcessWrite / SequenceWaiter   *)
 (* Close / non-blocking read of every waiter's channel), in call order; a     *)
 (* "Reset" line starts the next trace.  The handle given to a new subscriber, *)
-(* the number of the generated key and what every channel returned must be    *)
-(* what SeqWaiters says.                                                      *)
+(* the number and the suffix of the generated key (the put carries its delta) *)
+(* and what every channel returned must be what SeqWaiters says.              *)
 EXTENDS SeqWaiters
 
 TraceLog == ndJsonDeserialize("trace.ndjson")
 VARIABLE l
-tvars == <<latest, wp, tid, open, buf, seen, reg, idGen, hist, l>>
+tvars == <<latest, sfx, wp, tid, open, buf, seen, reg, idGen, hist, l>>
 
 TInit == Init /\ l = 1
 TNext ==
     /\ l <= Len(TraceLog) /\ l' = l + 1
     /\ LET e == TraceLog[l] IN
        \/ /\ e.a = "Reset"
-          /\ latest' = [p \in Prefixes |-> 0] /\ wp' = <<>> /\ tid' = <<>> /\ open' = <<>> /\ buf' = <<>> /\ seen' = <<>>
+          /\ latest' = [p \in Prefixes |-> 0] /\ sfx' = [p \in Prefixes |-> <<>>] /\ wp' = <<>> /\ tid' = <<>> /\ open' = <<>> /\ buf' = <<>> /\ seen' = <<>>
           /\ reg' = [p \in Prefixes |-> EmptyMap] /\ idGen' = 0 /\ hist' = <<>>
        \/ e.a = "Sub"   /\ e.p \in Prefixes /\ Subscribe(e.p) /\ e.w = Len(wp) + 1
-       \/ e.a = "Put"   /\ e.p \in Prefixes /\ Put(e.p) /\ e.k = latest[e.p] + 1
+       \* (the delta is the one the call carried, any uint64 > 0; the suffix of the generated key is compared)
+       \/ e.a = "Put"   /\ e.p \in Prefixes /\ PutD(e.p, Db!PadLeft20(e.d)) /\ e.k = latest[e.p] + 1
+                        /\ e.sfx = Db!AddU64(CurSfx(e.p), Db!PadLeft20(e.d))
        \/ e.a = "Close" /\ Close(e.w)
        \/ e.a = "Drain" /\ Drain /\ e.obs = [w \in Handles |-> ObsOf(w)]
 TraceSpec == TInit /\ [][TNext]_tvars
